@@ -315,8 +315,9 @@ class TDigest(QuantileSketch):
                     return 0.0
                 # Between previous and this centroid
                 prev = self._centroids[i - 1]
-                if prev.mean < value < centroid.mean:
-                    # Linear interpolation
+                if prev.mean < value <= centroid.mean:
+                    # Linear interpolation (value == centroid.mean counts half of this
+                    # centroid, the limit of the interpolation: keeps the CDF monotone)
                     t = (value - prev.mean) / (centroid.mean - prev.mean)
                     partial = t * centroid.count / 2
                     return (count_below + partial) / self._total_count
